@@ -19,8 +19,22 @@ def cases(rng, tier):
     for b in fixture_blocks():
         ts = [0.5, 1.0, 2.5, 7.3, 12.1, 33.3]
         yield ("traj f %s %s" % (hexs(b), ",".join(k + fhex(t) for t in ts for k in "va")), "fixture")
-    for i in range(n):
+    nlong = 8 if tier == "thorough" else 2
+    for i in range(n + nlong):
         tr = G.rand_traj(rng, nseg=rng.choice([1, 2, 3, 5]), maxdeg=(7 if i % 3 else 3))
+        if i >= n:
+            # a block longer than 64 KiB, probed in its tail (beyond byte offset 65536)
+            st = tr["start"]
+            pre = G.long_prefix(rng, st[0], st[1], st[2], deg=3, flat_z=False, dur=20)
+            t0 = sum(s["dur"] for s in pre)
+            tail = dict(tr)
+            bs = [t0 + b for b in G.boundaries(tail)]
+            ts = [G.f32(t0 / 1000.0 + t) for t in G.probe_times(rng, tail, 40, interior_only=True)]
+            keep = [t for t in ts if all(abs(t * 1000 - b) >= 2 for b in bs)][:10]
+            qs = [rng.choice("vvaap") + fhex(t) for t in keep]
+            tr["segs"] = pre + tr["segs"]
+            yield ("traj %s %s %s" % ("h" if i % 2 else "f", hexs(G.encode(tr)), ",".join(qs)), "long-block")
+            continue
         ts = G.probe_times(rng, tr, 40, interior_only=True)
         # keep away from boundaries: at least 2 ms
         bs = G.boundaries(tr)
